@@ -65,6 +65,10 @@ func (c *ContentTypeMismatchError) Error() string {
 	return fmt.Sprintf("content type mismatch: got %q, want %q", c.Got, c.Want)
 }
 
+// maxPrealloc is the largest announced Content-Length for which Recv allocates
+// the receive buffer up front.
+const maxPrealloc = 1 << 24
+
 // An hdr implements Channel. Messages sent on a hdr channel are framed as a
 // header/body transaction, similar to HTTP.
 type hdr struct {
@@ -134,6 +138,21 @@ func (h *hdr) Recv() ([]byte, error) {
 	size, err := strconv.Atoi(contentLength)
 	if err != nil || size < 0 {
 		return nil, errors.New("invalid content-length")
+	}
+
+	// Do not allocate from the announced length alone when it is very large: a
+	// corrupt or hostile header would exhaust memory (or overflow size*2)
+	// before a single payload byte has been read. Read such messages
+	// incrementally, so that a length that is not delivered ends in an error.
+	if size > maxPrealloc {
+		var big bytes.Buffer
+		if _, err := io.CopyN(&big, h.rd, int64(size)); err != nil {
+			if err == io.EOF {
+				err = io.ErrUnexpectedEOF
+			}
+			return nil, err
+		}
+		return big.Bytes(), contentErr
 	}
 
 	// We need to use ReadFull here because the buffered reader may not have a
